@@ -945,8 +945,13 @@ func workerMain(arg string) {
 
 func freeRun(iters int) {
 	ws := worlds{}
+	t0 := time.Now()
 	for si := range scenarios {
 		sc := &scenarios[si]
+		if iters < 100 && sc.prune != types.PruneNothingStrategy {
+			continue // quick: one application start under the race detector costs ~1-2 min; the pruning scenario runs in thorough
+		}
+		fmt.Printf("FREERUN-T %.1fs scenario %s\n", time.Since(t0).Seconds(), sc.name)
 		w, err := ws.get(sc)
 		if err != nil {
 			fmt.Println("FREERUN-SETUP", err)
@@ -1041,7 +1046,7 @@ func main() {
 	var raceErr error
 	if *raceBin != "" && *only < 0 {
 		go func() {
-			cmd := exec.Command(*raceBin, "-id", r.ID, "-freerun", map[bool]string{true: "12", false: "150"}[r.Quick()])
+			cmd := exec.Command(*raceBin, "-id", r.ID, "-freerun", map[bool]string{true: "25", false: "300"}[r.Quick()])
 			cmd.Env = append(os.Environ(), "GORACE=halt_on_error=0")
 			out, err := cmd.CombinedOutput()
 			raceOut, raceErr = string(out), err
@@ -1155,7 +1160,7 @@ func main() {
 			}
 			sort.Strings(cl)
 			if !strings.Contains(s, "DATA RACE") {
-				raceNote = "free-running -race pass of the same bodies (all scenarios): no data race reported"
+				raceNote = fmt.Sprintf("free-running -race pass of the same bodies (%s): no data race reported", map[bool]string{true: "25 epochs x the 6 scenarios without pruning", false: "300 epochs x all 7 scenarios"}[r.Quick()])
 			}
 			if n > 0 {
 				// timing-dependent: informational only (the controlled enumeration decides)
